@@ -5,6 +5,7 @@ while drawing, so every operation is valid in its state) is interpreted against 
 model.  Nothing of esutil computes an expectation: the expected table is numpy.concatenate of
 the chunks that were handed to esutil, the expected header is the dict given at creation.
 """
+import os
 import re
 
 import numpy as np
@@ -72,7 +73,7 @@ def _chunk(draw, text):
     else:
         n = draw(st.integers(1, 30))
     c = {"n": n, "seed": draw(st.integers(0, 2 ** 32 - 1)),
-         "layout": draw(st.sampled_from(["contig", "contig", "contig", "contig", "strided", "strided", "2d"]))}
+         "layout": draw(st.sampled_from(["contig", "contig", "contig", "contig", "strided", "strided", "2d", "2d-F"]))}
     if not text and draw(st.integers(0, 39)) == 0:
         # a binary chunk whose size sits next to a power-of-two boundary a buffered writer might split at
         # (the row count follows from the row size of the form when the chunk is built)
@@ -155,7 +156,10 @@ def histories(draw):
         elif kind == "read_back":
             op["via"] = draw(st.sampled_from(["sfile.read", "SFile.read", "SFile[:]", "io.read", "SFile(r+).read"]))
         ops.append(op)
-    return {"forms": forms, "ops": ops, "verify_each": draw(st.booleans())}
+    return {"forms": forms, "ops": ops, "verify_each": draw(st.booleans()),
+            # how the caller names the file: a plain path, or one with an environment variable in it (the three
+            # record-file modules expand $VAR and ~ themselves)
+            "path": draw(st.sampled_from(["plain", "plain", "plain", "envvar"]))}
 
 
 @st.composite
@@ -191,10 +195,21 @@ def recfile_histories(draw):
             op["via"] = draw(st.sampled_from(["recfile.read", "Recfile.read", "Recfile[:]", "Recfile(r+).read"]))
             op["nrows_given"] = draw(st.booleans())
         ops.append(op)
-    return {"forms": forms, "ops": ops, "verify_each": draw(st.booleans())}
+    return {"forms": forms, "ops": ops, "verify_each": draw(st.booleans()),
+            # how the caller names the file: a plain path, or one with an environment variable in it (the three
+            # record-file modules expand $VAR and ~ themselves)
+            "path": draw(st.sampled_from(["plain", "plain", "plain", "envvar"]))}
 
 
 # ----------------------------------------------------------------------------- building chunks
+
+def _path_arg(case, real):
+    """The file name as handed to esutil: the real path, or the same file named through an environment variable."""
+    if case.get("path") != "envvar":
+        return real
+    os.environ["VERIF_C03_DIR"] = os.path.dirname(real)
+    return "$VERIF_C03_DIR/" + os.path.basename(real)
+
 
 def _tcase(descr):
     return {"descr": descr, "nrows": 1, "fill": "rand", "seed": 0, "cells": []}
@@ -217,10 +232,12 @@ def _as_arg(a, chunk):
         big = np.zeros(a.size * 2 + 1, dtype=a.dtype)
         big[1::2] = a
         return big[1::2]
-    if chunk.get("layout") == "2d":
-        # the chunk held as a 2-d array of records: its records in C order are the rows appended
+    if chunk.get("layout") in ("2d", "2d-F"):
+        # the chunk held as a 2-d array of records: its records in C (logical) order are the rows appended,
+        # whether the array is stored row-major or column-major
         k = next((k for k in (2, 3, 5) if a.size % k == 0 and a.size > k), 1)
-        return a.reshape(k, a.size // k)
+        b = a.reshape(k, a.size // k)
+        return np.asfortranarray(b) if chunk["layout"] == "2d-F" else b
     return a
 
 
@@ -393,7 +410,7 @@ def _verify(fname, m, via, what):
     _equal_tables(out, want, m.text, what)
     _check_header(sfile.read_header(fname), m, what + " read_header")
     # the bytes of the file
-    with open(fname, "rb") as fh:
+    with open(os.path.expandvars(fname), "rb") as fh:
         raw = fh.read()
     first, rest, body = _split_file(raw, what)
     require(int(first[7:]) == want.size, "%s: SIZE line says %r, %d rows were written", what, first, want.size)
@@ -409,7 +426,7 @@ def _verify(fname, m, via, what):
 
 
 def _file_bytes(fname):
-    with open(fname, "rb") as fh:
+    with open(os.path.expandvars(fname), "rb") as fh:
         return fh.read()
 
 
@@ -419,7 +436,7 @@ def check_history(case, ctx):
     import esutil
     from esutil import sfile
     forms = case["forms"]
-    fname = ctx.tmpfile("h.rec")
+    fname = _path_arg(case, ctx.tmpfile("h.rec"))
     m = Model()
     handle = None
     ops = case["ops"]
@@ -557,7 +574,7 @@ def _verify_plain(fname, m, op, what):
 def check_recfile_history(case, ctx):
     from esutil import recfile
     forms = case["forms"]
-    fname = ctx.tmpfile("h.bin")
+    fname = _path_arg(case, ctx.tmpfile("h.bin"))
     m = Model()
     handle = None
     try:
@@ -619,6 +636,7 @@ def classify(case):
     ops = case["ops"]
     labs.add("steps:%s" % ("1" if len(ops) == 1 else "2-4" if len(ops) <= 4 else "5-8" if len(ops) <= 8 else "9-12"))
     labs.add("verify:each-step" if case["verify_each"] else "verify:at-reads-and-end")
+    labs.add("path:" + case.get("path", "plain"))
     closed_before = False     # the file has been written and closed at least once
     exists = False
     handle = False
@@ -680,7 +698,7 @@ def classify(case):
                 labs.add("chunk:>=64KiB" if op["chunk"]["target_bytes"] < 2 ** 20 else "chunk:>=1MiB")
             if op["chunk"]["layout"] == "strided":
                 labs.add("chunk:strided")
-            if op["chunk"]["layout"] == "2d":
+            if op["chunk"]["layout"] in ("2d", "2d-F"):
                 labs.add("chunk:2d-array-of-records")
         if cur is not None:
             labs.add("form:text" if cur["delim"] is not None else "form:binary")
